@@ -18,7 +18,7 @@ from ..engine.nandomain import F, NanInterp, nan
 from ..engine.report import AnalysisError, Run
 from ..engine.resolver import ClassInfo, FuncInfo, Program, body_walk
 from ..engine.util import canon, method_call, nodes_with_call, u
-from ._c06_util import Flow, HelperCalls, Site, first_run_sync_name, lifted, names_eq, pruned, result_sites, seg, select_ifexp, src_patch, stmt_patch, unawait
+from ._c06_util import Flow, HelperCalls, Site, first_run_sync_name, validity_name, lifted, names_eq, pruned, result_sites, seg, select_ifexp, src_patch, stmt_patch, unawait
 
 STEPS = "timeseries.formula_engine._formula_steps"
 EVAL = "timeseries.formula_engine._formula_evaluator"
@@ -324,7 +324,13 @@ def check_fetcher(run: Run, prog: Program, rule: str = "C13.FETCH", only_total: 
               "no fetched sample -> error", "apply() without a fetched sample pushes a value",
               node=fn.node, file=fn.file, instance="MetricFetcher.apply without fetched sample raises")
     # sibling predicate: _is_value_valid tests the same three encodings
-    vfn = prog.func(f"{STEPS}:MetricFetcher._is_value_valid")
+    vname = validity_name(prog)
+    if vname is None:
+        # no separate predicate: the test is written in line; apply() was interpreted above for every encoding and
+        # the fallback switch judges its own in-line test (C19.LAZY / C19.SEL)
+        run.ok("C13.FETCH", "validity test written in line (no sibling predicate to compare)")
+        return
+    vfn = prog.func(f"{STEPS}:MetricFetcher.{vname}")
     run.analysed(vfn.qual)
     rets = [n for n in body_walk(vfn.node) if isinstance(n, ast.Return) and n.value is not None]
     vparams = [x for x in vfn.params if x not in ("self", "cls")]  # also a @staticmethod
